@@ -123,6 +123,21 @@ def key_injectivity(prog, rep):
         rep.undecided("KEY", fi.short, "event loop", "no loop over events", fi.loc())
         return None
     ol = outer[0]
+    kp = fi.params[1]
+    # the keys that are compared are the keys the caller gave: all of them, for every event
+    from ..sqlmodel import local_defs as _ld
+
+    for d_ in _ld(fi, kp):
+        v_ = getattr(d_, "value", None)
+        same = isinstance(v_, ast.Call) and norm(v_.func) in ("list", "tuple") and len(v_.args) == 1 and norm(v_.args[0]) == kp
+        rep.check(same, "KEY", fi.short, f"re-binding of `{kp}`", "all keys kept", f"`{norm(d_)[:80]}` replaces the list of keys before the grouping (e.g. by the keys the FIRST event carries): a key that other events have and this selection drops no longer separates them, so events that differ in that key are summed into one group", fi.loc(d_))
+    # an exception handler around the key loop ends the loop at the first key that raises: the keys after it are not compared
+    for t_ in [x for x in ol.body if isinstance(x, ast.Try)]:
+        kl = [n for n in t_.body if isinstance(n, ast.For) and norm(n.iter) == kp]
+        swallow = [h for h in t_.handlers if not any(isinstance(x, ast.Raise) for x in ast.walk(h))]
+        if kl and swallow:
+            rep.violation("KEY", fi.short, "key loop inside try", f"the loop over `{kp}` runs inside `try: ... except {norm(swallow[0].type) if swallow[0].type is not None else ''}: ...` that does not re-raise: the first key an event lacks ends the loop, the keys after it are never looked at, and events that differ only in a later key get the same group key", fi.loc(t_))
+            return None
     inner = [n for n in ol.body if isinstance(n, ast.For) and norm(n.iter) == fi.params[1]]
     if len(inner) != 1:
         if not _key_comprehension(prog, rep, fi, ol):
@@ -433,6 +448,9 @@ def chunk_rule(prog, rep):
         if isinstance(s, ast.Assign) and norm(s.value) == f"{acc}[-1]":
             last = norm(s.targets[0])
     oke = last is not None and f"{last}.duration += {ev}.duration" in ext and f"{last}.data['subevents'].append({ev})" in ext and len(ext) == 3
+    if last is None:
+        # the last chunk addressed directly as acc[-1]
+        oke = sorted(ext) == sorted([f"{acc}[-1].duration += {ev}.duration", f"{acc}[-1].data['subevents'].append({ev})"])
     rep.check(oke, "SUM", fi.short, "extend last chunk", "duration += event.duration and subevents.append(event)", f"extending the last chunk does `{'; '.join(ext)}`: the event or its duration is lost or added twice", fi.loc(i))
     oko = any(t == f"{acc}.append(chunked_event)" or (t.startswith(f"{acc}.append(")) for t in opn) and any("'subevents': [" + ev + "]" in t for t in opn) and any(f"duration={ev}.duration" in t for t in opn)
     rep.check(oko, "SUM", fi.short, "open chunk", "Event(duration=event.duration, data={key: ..., 'subevents': [event]}) appended", f"opening a chunk does `{'; '.join(opn)[:160]}`", fi.loc(i))
